@@ -14,7 +14,7 @@ enabled, so every list is a schedule and every interleaving of the goroutines is
 number of points, on the edge buffer size, or on the length of the chain.
 -/
 import Kap.Proofs.C07Outcome
-import Kap.Gen.C07
+import Kap.Gen.C07Shape
 import Kap.Gen.C07Go
 import Kap.Spec.C07Go
 namespace Kap.Props.C07
